@@ -275,7 +275,7 @@ inline void emit_violation(const char* tag, std::uint64_t runidx, std::uint64_t 
 //   E {json}                            harness error
 //   S {json}                            sample plan
 //   Z {json}                            final summary
-// Per-run watchdog: a run that does not finish within VERIF_RUN_TIMEOUT seconds (default 120) is a harness-visible
+// Per-run watchdog: a run that does not finish within VERIF_RUN_TIMEOUT seconds (default 600) is a harness-visible
 // hang.  It is reported as an E record (exit 2 material) with the run index instead of stalling the batch for hours.
 inline volatile unsigned long long g_watch_run = 0;
 inline void on_alarm(int) {
@@ -285,7 +285,7 @@ inline void on_alarm(int) {
 
 inline int worker_main(Engine& eng, int argc, char** argv) {
     ensure_no_aslr(argv);
-    unsigned run_timeout = std::getenv("VERIF_RUN_TIMEOUT") ? (unsigned)std::atoi(std::getenv("VERIF_RUN_TIMEOUT")) : 120u;
+    unsigned run_timeout = std::getenv("VERIF_RUN_TIMEOUT") ? (unsigned)std::atoi(std::getenv("VERIF_RUN_TIMEOUT")) : 600u;
     std::signal(SIGALRM, on_alarm);
     std::string mode, prop = "", tier = "quick", planfile;
     std::uint64_t batch = 1, start = 0, stride = 1, count = 0, samples = 0, until = ~0ull;
